@@ -27,7 +27,7 @@ CONFIGS = [("synchronous", None), ("threads", 1), ("threads", 2), ("threads", 4)
 
 
 # ------------------------------------------------------------------ generator
-def gen_case(rng, mode=None, stochastic=None, custom_kind=None, adc=None):
+def gen_case(rng, mode=None, stochastic=None, custom_kind=None, adc=None, clock=None):
     case = c05.gen_case(rng, mode=mode, with_dask=True,
                         flavour=rng.choice(["plain", "fine", "vectors", "two_models_same_arg", "same_model_two_groups",
                                             "field_vs_arg"]), max_runs=12)
@@ -50,6 +50,15 @@ def gen_case(rng, mode=None, stochastic=None, custom_kind=None, adc=None):
                                "enabled": True, "multi": False})
         case["fields"] = sorted(set(case["fields"]) | {"characteristics.adc_bit_resolution"})
         case["adc"] = rng.choice([200, 60000, 3000000])
+    if clock is None:
+        clock = rng.random() < 0.2
+    if clock:
+        # several readouts with UNEQUAL steps and a probe whose output is the readout cursor it sees (time, time_step,
+        # pipeline_count), sleeping between steps; no pipeline seed (its lock would serialise the runs)
+        case["readout_times"] = rng.choice([[1.0, 3.0, 4.0], [0.5, 1.0, 3.0], [2.0, 2.5, 6.0, 6.5]])
+        case["non_destructive"] = rng.random() < 0.5
+        case["clock"] = True
+        stochastic = False
     stochastic = rng.choice([None, None, "pipeline_seed", "model_seed"]) if stochastic is None else stochastic
     case["stochastic"] = stochastic or None
     case["seed"] = rng.randrange(1, 10000)
@@ -62,6 +71,10 @@ def extra_models(case):
     writer whose dtype follows the ADC resolution"""
     adc = {"readout_electronics": [{"name": "adc", "func": "obsprobes.adc_image", "arguments": {"value": case["adc"]}}]} \
         if case.get("adc") else None
+    if case.get("clock"):
+        return {"readout_electronics": [{"name": "clk", "func": "obsprobes.clock",
+                                         "arguments": {"slot": c05.nslots(case), "delay_ms": 2.0}}]
+                + (adc or {}).get("readout_electronics", [])}, 1
     if not case.get("stochastic"):
         return adc, 0
     args = {"slot": c05.nslots(case), "n": 3, "delay_ms": 1.0 if case["delay_ms"] else 0.0}
@@ -73,12 +86,14 @@ def extra_models(case):
 # ------------------------------------------------------------------ implementation side
 def run_path(case, parallel, scheduler="synchronous", workers=None, outputs=False):
     extra, extra_slots = extra_models(case)
+    outputs = outputs and not case.get("clock")  # several readouts: the files stream uses single-readout cases
     out_dir = tempfile.mkdtemp(prefix="verif-c07-out-") if outputs else None
     try:
         res = c05.run_impl(case, scheduler=scheduler, num_workers=workers, with_dask=parallel,
                            delay_ms=case["delay_ms"] if parallel else 0.0, outputs_dir=out_dir,
                            pipeline_seed=case["seed"] if case.get("stochastic") == "pipeline_seed" else None,
-                           extra=extra, extra_slots=extra_slots, with_image=bool(case.get("adc")))
+                           extra=extra, extra_slots=extra_slots, with_image=bool(case.get("adc")),
+                           all_times=bool(case.get("clock")))
         if outputs and "error" not in res:
             res["files"] = read_files(res.get("output_dir"), c05.nslots(case) + extra_slots)
         return res
@@ -196,6 +211,58 @@ def predicate(case, ref, par, cfg):
         if sorted(common.canon(v) for v in files.values()) != want:
             return (f"{tag}:file-contents", "the files do not hold exactly one copy of every combination's data")
     return None
+
+
+# ------------------------------------------------------------------ deprecated (still exported) parallel entry point
+def check_deprecated_files(ck, case, workers):
+    """`pyxel.observation_mode(..., with_dask=True)` with saved outputs: file `detector_pixel_array_<n+1>.npy` ↔
+    combination n; judged: as many files as combinations, numbered 1..N, holding one copy of every combination's data"""
+    import dask
+    import numpy as np
+    import obsprobes
+    import pyxel
+    from pyxel.outputs import ObservationOutputs
+
+    tmp = tempfile.mkdtemp(prefix="verif-c07-dep-")
+    cwd = os.getcwd()
+    try:
+        os.chdir(tmp)
+        obsprobes.reset()
+        det, pipe = c05.build_objects(case, delay_ms=max(1.0, case.get("delay_ms", 0.0)))
+        out = ObservationOutputs(output_folder=tmp + "/out", save_data_to_file=[{"detector.pixel.array": ["npy"]}])
+        obs = c05.build_observation(case, tmp, with_dask=True, outputs=out)
+        try:
+            import warnings
+
+            with warnings.catch_warnings(), dask.config.set(scheduler="threads", num_workers=workers):
+                warnings.simplefilter("ignore")
+                pyxel.observation_mode(observation=obs, detector=det, pipeline=pipe)
+        except Exception as e:  # noqa: BLE001
+            ck.count("deprecated:observation_mode:" + common.err_kind(e) + ":" + str(e)[:80])
+            ck.case({"deprecated": case, "workers": workers}, nontrivial=False, stream="deprecated-files")
+            return
+        files = {}
+        for path in glob.glob(os.path.join(str(out.current_output_folder), "detector_pixel_array_*.npy")):
+            k = os.path.basename(path)[len("detector_pixel_array_"):-len(".npy")]
+            files[k] = [c05.num(x) for x in np.load(path).reshape(-1)[:c05.nslots(case)]]
+        spec = c05.spec_runs(case)
+        want = [c05.expected_data(case, r["assignment"]) for r in spec]
+        ck.case({"deprecated": case, "workers": workers}, nontrivial=len(spec) >= 2, stream="deprecated-files")
+        ck.count("deprecated:observation_mode:ok")
+        names = sorted(files, key=lambda s: (len(s), s))
+        if names != [str(i + 1) for i in range(len(spec))]:
+            ck.violation("C07:deprecated-observation_mode:file-names",
+                         f"pyxel.observation_mode with dask: {len(spec)} combinations but files numbered {names}",
+                         {"deprecated": case, "workers": workers, "files": names})
+        elif sorted(common.canon(v) for v in files.values()) != sorted(common.canon(v) for v in want):
+            ck.violation("C07:deprecated-observation_mode:file-contents",
+                         "pyxel.observation_mode with dask: the files do not hold exactly one copy of every combination's data",
+                         {"deprecated": case, "workers": workers})
+        elif [files[str(i + 1)] for i in range(len(spec))] != want:
+            ck.disagreement("deprecated-file-index", case, [files[str(i + 1)] for i in range(len(spec))], want)
+    finally:
+        os.chdir(cwd)
+        shutil.rmtree(tmp, ignore_errors=True)
 
 
 # ------------------------------------------------------------------ lazy results set up one after the other
@@ -374,11 +441,13 @@ def body(ck: common.Check):
     cases = []
     for mode in ("product", "sequential", "custom"):
         for st in (None, "pipeline_seed", "model_seed"):
-            cases.append(("directed", gen_case(rng, mode=mode, stochastic=st or False, custom_kind="plain", adc=False)))
+            cases.append(("directed", gen_case(rng, mode=mode, stochastic=st or False, custom_kind="plain", adc=False, clock=False)))
     for mode in ("product", "sequential"):
-        cases.append(("directed", gen_case(rng, mode=mode, stochastic=False, adc=True)))
+        cases.append(("directed", gen_case(rng, mode=mode, stochastic=False, adc=True, clock=False)))
+    for mode in ("product", "sequential"):
+        cases.append(("directed", gen_case(rng, mode=mode, adc=False, clock=True)))
     for kind in ("w1", "shift", "both"):
-        cases.append(("directed", gen_case(rng, mode="custom", stochastic=False, custom_kind=kind)))
+        cases.append(("directed", gen_case(rng, mode="custom", stochastic=False, custom_kind=kind, clock=False)))
     for _ in range(7 if quick else 150):
         cases.append(("random", gen_case(rng)))
     answers = LeanDriver("C07").batch([lean_request(c) for _, c in cases])
@@ -396,6 +465,8 @@ def body(ck: common.Check):
             n_proc += 1
         if not quick:
             cfgs = CONFIGS[:5] + cfgs[3:]
+        if case.get("clock"):
+            cfgs = [("threads", 4), ("threads", 8), CONFIGS[0]]
         for cfg in cfgs:
             par = run_path(case, parallel=True, scheduler=cfg[0], workers=cfg[1], outputs=True)
             ck.case({"case": case, "cfg": cfg}, nontrivial="error" not in par and len(par.get("entries", [])) >= 2,
@@ -405,7 +476,7 @@ def body(ck: common.Check):
             if why is not None:
                 ck.violation("C07:" + why[0], why[1], {"case": case, "cfg": list(cfg), "ref": ref, "par": par})
             # model: file k holds the data of task k of the parameter array
-            if "error" not in par and "error" not in tasks:
+            if "error" not in par and "error" not in tasks and "files" in par:
                 es = 1 if case.get("stochastic") else 0
                 files = {k: (v[:-es] if es else v) for k, v in par.get("files", {}).items()}
                 if files != tasks:
@@ -444,6 +515,18 @@ def body(ck: common.Check):
             ck.disagreement("assembly", case, list(range(n)), ans.get("assembled"))
     for _ in range(2 if quick else 12):
         check_lazy_interleaving(ck, rng)
+    # the deprecated parallel entry point, files ↔ combinations (product and sequential mode)
+    ndep = 0
+    for mode in ["product", "sequential", "product"] + [rng.choice(["product", "sequential"]) for _ in range(0 if quick else 30)]:
+        for _ in range(40):
+            c = c05.gen_case(rng, mode=mode, with_dask=True, flavour=rng.choice(["plain", "fine"]), max_runs=10)
+            en = c05._unique_enabled(c)  # noqa: SLF001
+            # the deprecated path assembles its result with combine_by_coords: scalar parameters with >= 2 values each
+            if len(c05.spec_runs(c)) >= 3 and all(not p.get("multi") and len(p["expect"]) >= 2 for p in en):
+                break
+        c["delay_ms"] = rng.choice([1.0, 2.0, 3.0])
+        check_deprecated_files(ck, c, workers=[4, 2, 8][ndep % 3])
+        ndep += 1
     # calibration clause, directed: the FIRST-created island is made to finish its creation LAST (its initial candidates —
     # read from a run with sequential island creation — are evaluated slowly), three or four unconnected islands, fixed
     # seeds: island i of the result must still be the island built from seed i
@@ -508,6 +591,14 @@ def replay(path):
         bad = "error" in b or a != b
         print("REPRODUCED: calibration outcome differs / fails" if bad else "not reproduced (property holds on this input)")
         return 1 if bad else 0
+    if "deprecated" in r:
+        ck = common.Check("C07", "quick")
+        for _ in range(3):  # the completion order varies: a few attempts
+            check_deprecated_files(ck, r["deprecated"], r.get("workers", 4))
+            if ck.violations:
+                break
+        print("REPRODUCED: " + ck.violations[0]["what"] if ck.violations else "not reproduced (property holds on this input)")
+        return 1 if ck.violations else 0
     if "lazy" in r:
         import random
 
